@@ -83,6 +83,10 @@ func (g *G) titleWords(k int, script string) string {
 		if g.intn(0, 11, "apos") == 0 {
 			w += g.pick("aposform", "'s", "n't", "'")
 		}
+		if g.intn(0, 24, "entitytext") == 0 {
+			// text that reads like a character reference (the source escapes its ampersand)
+			w = w + g.pick("entitytextv", "&lt;br&gt;", "&amp;", "&nbsp;x", "&#38;")
+		}
 		if g.intn(0, 19, "innersep") == 0 {
 			// separator characters inside a word separate nothing ("18:30", "e-mail", "and/or")
 			w = w + g.pick("innersepc", ":", "-", "/", "|") + g.tok()
@@ -269,7 +273,12 @@ func checkC15(c *Case) (*Violation, caseInfo) {
 				// every third page: the first letter of the block is wrapped in inline markup (a drop cap)
 				inner = "<span>" + html.EscapeString(text[:1]) + "</span>" + html.EscapeString(text[1:])
 			}
-			return strings.Replace(c.HTML, c15Marker, "<"+tag+">"+inner+"</"+tag+">\n", 1)
+			kicker := ""
+			if len(c.HTML)%4 == 1 {
+				// every fourth page: another (short) heading stands directly before the block
+				kicker = "<h3>Opinion zq9kicker</h3>\n"
+			}
+			return strings.Replace(c.HTML, c15Marker, kicker+"<"+tag+">"+inner+"</"+tag+">\n", 1)
 		}
 		_, outP := applyHTML(mk(res.Title), c.Opts)
 		_, outC := applyHTML(mk(strings.Join(ctlWords, " ")), c.Opts)
